@@ -169,6 +169,7 @@ def _sklearn_positional(run, P):
     import ast
     from ..astutil import norm, where
     n = 0
+    covered = set()
     for f in P.all_functions():
         if f.module.relpath != NEI or f.cls is None:
             continue
@@ -176,6 +177,7 @@ def _sklearn_positional(run, P):
             if isinstance(c, ast.Call) and isinstance(c.func, ast.Attribute) and c.func.attr in SKLEARN_SIG and "_current_tree()" in norm(c.func.value):
                 sig_ = SKLEARN_SIG[c.func.attr]
                 n += 1
+                covered.add(f.key)
                 key = f"{f.key}:call({c.func.attr})@{'with' if any('d' == norm(t) or 'd,' in norm(t) for t in []) else ''}{c.lineno - f.node.lineno}"
                 bad = []
                 for i, a in enumerate(c.args[1:], start=1):
@@ -188,7 +190,9 @@ def _sklearn_positional(run, P):
                     run.violation("F-SIG/sklearn-positional", key, where(f, c), "; ".join(bad) + f" (sklearn: {c.func.attr}({', '.join(sig_)}))")
                 else:
                     run.holds("F-SIG/sklearn-positional", key, where(f, c), f"positional arguments follow sklearn's {c.func.attr}({', '.join(sig_)})")
-    run.floor("F-SIG/sklearn-positional", n, 10)
+    # non-vacuity: every query method of both tree classes hands its arguments to the wrapped tree at least once (the NUMBER of call sites is free:
+    # merging the with/without-distance calls into one is behaviour-preserving)
+    run.floor("F-SIG/sklearn-positional", len(covered), 4)
 
 
 def _element_count_follows_kind(run, P):
